@@ -347,4 +347,423 @@ theorem visited_contains_guaranteed (key : α → κ) (succ : α → List α)
     ∀ k, Reach G (roots.map key) k → k ∈ s.visited.map key :=
   (closed_steps key succ (closed_init key succ h0) hs).complete hq G hG
 
+/-! ### theorem 2: everything visited or queued is reachable -/
+
+theorem sound_step (key : α → κ) (succ : α → List α) {roots : List α} {s t : State α κ}
+    (I : ∀ a, a ∈ s.visited ++ s.queue → IReach succ roots a) (h : Step key succ s t) :
+    ∀ a, a ∈ t.visited ++ t.queue → IReach succ roots a := by
+  cases h with
+  | @pop q seen vis a rest cands q' h1 h2 h3 =>
+    have ha : IReach succ roots a :=
+      I a (List.mem_append.2 (Or.inr ((h1.mem_iff).2 List.mem_cons_self)))
+    intro x hx
+    simp only [List.mem_append, List.mem_cons] at hx
+    rcases hx with (rfl | hx) | hx
+    · exact ha
+    · exact I x (List.mem_append.2 (Or.inl hx))
+    · rcases List.mem_append.1 ((h3.mem_iff).1 hx) with hx | hx
+      · exact I x (List.mem_append.2 (Or.inr ((h1.mem_iff).2 (List.mem_cons_of_mem _ hx))))
+      · exact IReach.step ha ((h2.mem_iff).1 (offer_new_mem key cands seen x hx).1)
+
+theorem sound_steps (key : α → κ) (succ : α → List α) {roots : List α} {s t : State α κ}
+    (I : ∀ a, a ∈ s.visited ++ s.queue → IReach succ roots a) (h : Steps key succ s t) :
+    ∀ a, a ∈ t.visited ++ t.queue → IReach succ roots a := by
+  induction h with
+  | refl => exact I
+  | tail _ hs ih => exact sound_step key succ ih hs
+
+/-- **Theorem 2.** Whatever the traversal order, at any time: every visited or queued item is
+    reachable from the root items along `succ`. -/
+theorem visited_sound (key : α → κ) (succ : α → List α) {roots : List α} {seen0 : List κ}
+    {s : State α κ} (hs : Steps key succ ⟨roots, seen0, []⟩ s) :
+    ∀ a, a ∈ s.visited ++ s.queue → IReach succ roots a :=
+  sound_steps key succ (fun a ha => IReach.root (by simpa using ha)) hs
+
+/-- visited keys are reachable from the root keys along possible successors -/
+theorem visited_subset_poss (key : α → κ) (succ : α → List α) {roots : List α} {seen0 : List κ}
+    {s : State α κ} (hs : Steps key succ ⟨roots, seen0, []⟩ s) :
+    ∀ a ∈ s.visited, Reach (Poss key succ) (roots.map key) (key a) :=
+  fun a ha => (visited_sound key succ hs a (List.mem_append.2 (Or.inl ha))).reach_poss key
+
+/-! ### theorem 3: key-determined successors: the visited key set is THE closure -/
+
+/-- **Theorem 3.** If the successor keys of an item are determined by its key, every final state
+    has visited exactly the keys reachable from the root keys. -/
+theorem visited_eq_closure (key : α → κ) (succ : α → List α)
+    (hdet : ∀ a b, key a = key b → ∀ a' ∈ succ a, ∃ b' ∈ succ b, key b' = key a')
+    {roots : List α} {seen0 : List κ} (h0 : ∀ k ∈ seen0, k ∈ roots.map key)
+    {s : State α κ} (hs : Steps key succ ⟨roots, seen0, []⟩ s) (hq : s.queue = []) (k : κ) :
+    k ∈ s.visited.map key ↔ Reach (Poss key succ) (roots.map key) k := by
+  constructor
+  · intro hk
+    obtain ⟨a, ha, rfl⟩ := List.mem_map.1 hk
+    exact visited_subset_poss key succ hs a ha
+  · refine visited_contains_guaranteed key succ (Poss key succ) ?_ h0 hs hq k
+    rintro a k' ⟨b, hb, b', hb', rfl⟩
+    exact hdet b a hb b' hb'
+
+/-- two complete traversals from the same roots visit the same keys, whatever their orders -/
+theorem order_independent (key : α → κ) (succ : α → List α)
+    (hdet : ∀ a b, key a = key b → ∀ a' ∈ succ a, ∃ b' ∈ succ b, key b' = key a')
+    {roots : List α} {seen1 seen2 : List κ}
+    (h1 : ∀ k ∈ seen1, k ∈ roots.map key) (h2 : ∀ k ∈ seen2, k ∈ roots.map key)
+    {s₁ s₂ : State α κ}
+    (hs1 : Steps key succ ⟨roots, seen1, []⟩ s₁) (hq1 : s₁.queue = [])
+    (hs2 : Steps key succ ⟨roots, seen2, []⟩ s₂) (hq2 : s₂.queue = []) :
+    ∀ k, k ∈ s₁.visited.map key ↔ k ∈ s₂.visited.map key := fun k =>
+  (visited_eq_closure key succ hdet h1 hs1 hq1 k).trans
+    (visited_eq_closure key succ hdet h2 hs2 hq2 k).symm
+
+/-- the visited keys are contained in every key set that contains the root keys and is closed under
+    possible successors (holds at any time, without `hdet`) -/
+theorem closure_least (key : α → κ) (succ : α → List α) {roots : List α} {seen0 : List κ}
+    {s : State α κ} (hs : Steps key succ ⟨roots, seen0, []⟩ s)
+    (S : κ → Prop) (hroot : ∀ a ∈ roots, S (key a))
+    (hclosed : ∀ k k', S k → Poss key succ k k' → S k') :
+    ∀ k ∈ s.visited.map key, S k := by
+  intro k hk
+  obtain ⟨a, ha, rfl⟩ := List.mem_map.1 hk
+  refine Reach.least S ?_ hclosed (visited_subset_poss key succ hs a ha)
+  intro k hk
+  obtain ⟨r, hr, rfl⟩ := List.mem_map.1 hk
+  exact hroot r hr
+
+/-- more roots, more visited keys: `s` any state of a traversal from `roots`, `s'` a final state of a
+    traversal from `roots' ⊇ roots` -/
+theorem closure_mono_roots (key : α → κ) (succ : α → List α)
+    (hdet : ∀ a b, key a = key b → ∀ a' ∈ succ a, ∃ b' ∈ succ b, key b' = key a')
+    {roots roots' : List α} (hsub : ∀ a ∈ roots, a ∈ roots') {seen0 seen0' : List κ}
+    (h0' : ∀ k ∈ seen0', k ∈ roots'.map key) {s s' : State α κ}
+    (hs : Steps key succ ⟨roots, seen0, []⟩ s)
+    (hs' : Steps key succ ⟨roots', seen0', []⟩ s') (hq' : s'.queue = []) :
+    ∀ k ∈ s.visited.map key, k ∈ s'.visited.map key := by
+  intro k hk
+  obtain ⟨a, ha, rfl⟩ := List.mem_map.1 hk
+  refine (visited_eq_closure key succ hdet h0' hs' hq' _).2 ?_
+  refine Reach.mono ?_ (fun _ _ h => h) (visited_subset_poss key succ hs a ha)
+  intro k hk
+  obtain ⟨r, hr, rfl⟩ := List.mem_map.1 hk
+  exact List.mem_map_of_mem (hsub r hr)
+
+/-! ### theorem 4: the executable FIFO instance (the Go loop) -/
+
+/-- `n` iterations (at most) of the Go loop: pop the head, offer its successors in list order, append
+    the kept ones at the end of the queue -/
+def bfs (key : α → κ) (succ : α → List α) : Nat → State α κ → State α κ
+  | 0, s => s
+  | n + 1, s =>
+    match s.queue with
+    | [] => s
+    | a :: rest =>
+      let r := offer key s.seen (succ a)
+      bfs key succ n ⟨rest ++ r.2, r.1, a :: s.visited⟩
+
+def run (key : α → κ) (succ : α → List α) (fuel : Nat) (roots : List α) : State α κ :=
+  bfs key succ fuel (init roots)
+
+theorem bfs_zero (key : α → κ) (succ : α → List α) (s : State α κ) : bfs key succ 0 s = s := rfl
+
+theorem bfs_nil (key : α → κ) (succ : α → List α) (n : Nat) {s : State α κ} (h : s.queue = []) :
+    bfs key succ n s = s := by
+  cases n with
+  | zero => rfl
+  | succ n => simp [bfs, h]
+
+theorem bfs_cons (key : α → κ) (succ : α → List α) (n : Nat) {s : State α κ} {a : α} {rest : List α}
+    (h : s.queue = a :: rest) :
+    bfs key succ (n + 1) s =
+      bfs key succ n ⟨rest ++ (offer key s.seen (succ a)).2, (offer key s.seen (succ a)).1,
+        a :: s.visited⟩ := by
+  simp [bfs, h]
+
+/-- one iteration of the Go loop is a `Step` -/
+theorem bfs_step (key : α → κ) (succ : α → List α) {s : State α κ} {a : α} {rest : List α}
+    (h : s.queue = a :: rest) :
+    Step key succ s ⟨rest ++ (offer key s.seen (succ a)).2, (offer key s.seen (succ a)).1,
+      a :: s.visited⟩ := by
+  obtain ⟨q, seen, vis⟩ := s
+  simp only at h
+  subst h
+  exact Step.pop (List.Perm.refl _) (List.Perm.refl _) (List.Perm.refl _)
+
+/-- **Theorem 4.** The Go loop is one of the executions covered by the theorems above. -/
+theorem bfs_steps (key : α → κ) (succ : α → List α) : ∀ (n : Nat) (s : State α κ),
+    Steps key succ s (bfs key succ n s)
+  | 0, _ => Steps.refl
+  | n + 1, s => by
+    cases hq : s.queue with
+    | nil => rw [bfs_nil key succ _ hq]; exact Steps.refl
+    | cons a rest =>
+      rw [bfs_cons key succ n hq]
+      exact Steps.head (bfs_step key succ hq) (bfs_steps key succ n _)
+
+/-- either the loop has stopped, or it made exactly `n` iterations -/
+theorem bfs_stepsN (key : α → κ) (succ : α → List α) : ∀ (n : Nat) (s : State α κ),
+    (bfs key succ n s).queue = [] ∨ StepsN key succ n s (bfs key succ n s)
+  | 0, _ => Or.inr StepsN.refl
+  | n + 1, s => by
+    cases hq : s.queue with
+    | nil => rw [bfs_nil key succ _ hq]; exact Or.inl hq
+    | cons a rest =>
+      rw [bfs_cons key succ n hq]
+      rcases bfs_stepsN key succ n
+        ⟨rest ++ (offer key s.seen (succ a)).2, (offer key s.seen (succ a)).1, a :: s.visited⟩ with h | h
+      · exact Or.inl h
+      · exact Or.inr (StepsN.head (bfs_step key succ hq) h)
+
+/-- once the queue is empty more fuel changes nothing -/
+theorem bfs_stable (key : α → κ) (succ : α → List α) : ∀ (n m : Nat) (s : State α κ),
+    (bfs key succ n s).queue = [] → n ≤ m → bfs key succ m s = bfs key succ n s
+  | 0, m, s, h, _ => bfs_nil key succ m h
+  | n + 1, 0, _, _, hm => by omega
+  | n + 1, m + 1, s, h, hm => by
+    cases hq : s.queue with
+    | nil => rw [bfs_nil key succ _ hq, bfs_nil key succ _ hq]
+    | cons a rest =>
+      rw [bfs_cons key succ n hq] at h ⊢
+      rw [bfs_cons key succ m hq]
+      exact bfs_stable key succ n m _ h (by omega)
+
+/-! ### theorem 5: termination when the reachable items have finitely many keys -/
+
+/-- number of elements of `K` (with multiplicity) that are not in `seen` -/
+def missing : List κ → List κ → Nat
+  | [], _ => 0
+  | k :: K, seen => (if k ∈ seen then 0 else 1) + missing K seen
+
+theorem missing_le_length : ∀ (K seen : List κ), missing K seen ≤ K.length
+  | [], _ => by simp [missing]
+  | k :: K, seen => by
+    have := missing_le_length K seen
+    simp only [missing, List.length_cons]
+    split <;> omega
+
+theorem missing_cons_le (x : κ) : ∀ (K seen : List κ), missing K (x :: seen) ≤ missing K seen
+  | [], _ => by simp [missing]
+  | k :: K, seen => by
+    have := missing_cons_le x K seen
+    simp only [missing, List.mem_cons]
+    by_cases h1 : k ∈ seen
+    · simp only [h1, or_true, if_true]; omega
+    · by_cases h2 : k = x
+      · simp only [h2, true_or, if_true]; omega
+      · simp only [h1, h2, or_self, if_false]; omega
+
+theorem missing_cons_lt {x : κ} : ∀ {K : List κ} {seen : List κ}, x ∈ K → x ∉ seen →
+    missing K (x :: seen) + 1 ≤ missing K seen
+  | [], _, h, _ => by simp at h
+  | k :: K, seen, h, hx => by
+    simp only [missing, List.mem_cons]
+    by_cases h2 : k = x
+    · subst h2
+      have := missing_cons_le k K seen
+      simp only [hx, true_or, if_true, if_false]; omega
+    · have hxK : x ∈ K := by
+        rcases List.mem_cons.1 h with h | h
+        · exact absurd h.symm h2
+        · exact h
+      have := missing_cons_lt hxK hx
+      by_cases h1 : k ∈ seen
+      · simp only [h1, or_true, if_true]; omega
+      · simp only [h1, h2, or_self, if_false]; omega
+
+/-- every kept candidate with key in `K` uses up one missing key -/
+theorem offer_missing (key : α → κ) (K : List κ) : ∀ (cs : List α) (seen : List κ),
+    (∀ c ∈ cs, key c ∈ K) →
+    missing K (offer key seen cs).1 + (offer key seen cs).2.length ≤ missing K seen
+  | [], _, _ => by simp [offer]
+  | c :: cs, seen, h => by
+    have hcs : ∀ c ∈ cs, key c ∈ K := fun x hx => h x (List.mem_cons_of_mem _ hx)
+    by_cases hc : key c ∈ seen
+    · rw [offer_cons_seen key cs hc]; exact offer_missing key K cs seen hcs
+    · rw [offer_cons_new key cs hc]
+      have h1 := offer_missing key K cs (key c :: seen) hcs
+      have h2 := missing_cons_lt (h c List.mem_cons_self) hc
+      simp only [List.length_cons]
+      omega
+
+/-- the termination measure `queue.length + missing K seen` drops by one per iteration -/
+theorem bounded_step (key : α → κ) (succ : α → List α) (P : α → Prop)
+    (hsucc : ∀ a, P a → ∀ a' ∈ succ a, P a') (K : List κ) (hK : ∀ a, P a → key a ∈ K)
+    {s t : State α κ} (hP : ∀ a ∈ s.queue, P a) (h : Step key succ s t) :
+    (∀ a ∈ t.queue, P a) ∧
+      t.queue.length + missing K t.seen + 1 ≤ s.queue.length + missing K s.seen := by
+  cases h with
+  | @pop q seen vis a rest cands q' h1 h2 h3 =>
+    have ha : P a := hP a ((h1.mem_iff).2 List.mem_cons_self)
+    have hc : ∀ c ∈ cands, P c := fun c hc => hsucc a ha c ((h2.mem_iff).1 hc)
+    constructor
+    · intro x hx
+      rcases List.mem_append.1 ((h3.mem_iff).1 hx) with hx | hx
+      · exact hP x ((h1.mem_iff).2 (List.mem_cons_of_mem _ hx))
+      · exact hc x (offer_new_mem key cands seen x hx).1
+    · have l1 := h1.length_eq
+      have l3 := h3.length_eq
+      have hm := offer_missing key K cands seen (fun c h => hK c (hc c h))
+      simp only [List.length_cons, List.length_append] at l1 l3 ⊢
+      omega
+
+theorem bounded_stepsN (key : α → κ) (succ : α → List α) (P : α → Prop)
+    (hsucc : ∀ a, P a → ∀ a' ∈ succ a, P a') (K : List κ) (hK : ∀ a, P a → key a ∈ K)
+    {n : Nat} {s t : State α κ} (hP : ∀ a ∈ s.queue, P a) (h : StepsN key succ n s t) :
+    (∀ a ∈ t.queue, P a) ∧
+      n + t.queue.length + missing K t.seen ≤ s.queue.length + missing K s.seen := by
+  induction h with
+  | refl => exact ⟨hP, by omega⟩
+  | tail _ hs ih =>
+    have ih := ih hP
+    have := bounded_step key succ P hsucc K hK ih.1 hs
+    exact ⟨this.1, by omega⟩
+
+/-- **Theorem 5a.** If all items reachable from the roots (those satisfying the item invariant `P`)
+    have their keys in the finite list `K`, every execution of `n` iterations satisfies
+    `n + |queue| + |K \ seen| ≤ |roots| + |K \ seen0|`. -/
+theorem steps_bounded (key : α → κ) (succ : α → List α) (P : α → Prop)
+    (hsucc : ∀ a, P a → ∀ a' ∈ succ a, P a') (K : List κ) (hK : ∀ a, P a → key a ∈ K)
+    {roots : List α} (hroot : ∀ a ∈ roots, P a) {seen0 : List κ} {n : Nat} {s : State α κ}
+    (h : StepsN key succ n ⟨roots, seen0, []⟩ s) :
+    n + s.queue.length + missing K s.seen ≤ roots.length + missing K seen0 :=
+  (bounded_stepsN key succ P hsucc K hK (s := ⟨roots, seen0, []⟩) hroot h).2
+
+/-- no execution is longer than `|roots| + |K|` iterations -/
+theorem steps_le (key : α → κ) (succ : α → List α) (P : α → Prop)
+    (hsucc : ∀ a, P a → ∀ a' ∈ succ a, P a') (K : List κ) (hK : ∀ a, P a → key a ∈ K)
+    {roots : List α} (hroot : ∀ a ∈ roots, P a) {seen0 : List κ} {n : Nat} {s : State α κ}
+    (h : StepsN key succ n ⟨roots, seen0, []⟩ s) : n ≤ roots.length + K.length := by
+  have h1 := steps_bounded key succ P hsucc K hK hroot h
+  have h2 := missing_le_length K seen0
+  omega
+
+/-- **Theorem 5b.** With fuel `≥ |roots| + |K|` the Go loop stops with an empty queue. -/
+theorem bfs_terminates (key : α → κ) (succ : α → List α) (P : α → Prop)
+    (hsucc : ∀ a, P a → ∀ a' ∈ succ a, P a') (K : List κ) (hK : ∀ a, P a → key a ∈ K)
+    {roots : List α} (hroot : ∀ a ∈ roots, P a) (seen0 : List κ) {fuel : Nat}
+    (hfuel : roots.length + K.length ≤ fuel) :
+    (bfs key succ fuel ⟨roots, seen0, []⟩).queue = [] := by
+  rcases bfs_stepsN key succ fuel ⟨roots, seen0, []⟩ with h | h
+  · exact h
+  · have h1 := steps_bounded key succ P hsucc K hK hroot h
+    have h2 := missing_le_length K seen0
+    exact List.eq_nil_of_length_eq_zero (by omega)
+
+theorem run_terminates (key : α → κ) (succ : α → List α) (P : α → Prop)
+    (hsucc : ∀ a, P a → ∀ a' ∈ succ a, P a') (K : List κ) (hK : ∀ a, P a → key a ∈ K)
+    {roots : List α} (hroot : ∀ a ∈ roots, P a) {fuel : Nat}
+    (hfuel : roots.length + K.length ≤ fuel) : (run key succ fuel roots).queue = [] :=
+  bfs_terminates key succ P hsucc K hK hroot [] hfuel
+
+/-- the seen list stays duplicate free -/
+theorem steps_seen_nodup (key : α → κ) (succ : α → List α) {s t : State α κ}
+    (h : Steps key succ s t) (hn : s.seen.Nodup) : t.seen.Nodup := by
+  induction h with
+  | refl => exact hn
+  | tail _ hs ih =>
+    cases hs with
+    | pop h1 h2 h3 => exact offer_seen_nodup key _ _ ih
+
+/-- with enough fuel `run` computes the closure (theorems 3, 4 and 5 together) -/
+theorem run_eq_closure (key : α → κ) (succ : α → List α)
+    (hdet : ∀ a b, key a = key b → ∀ a' ∈ succ a, ∃ b' ∈ succ b, key b' = key a')
+    (P : α → Prop) (hsucc : ∀ a, P a → ∀ a' ∈ succ a, P a') (K : List κ)
+    (hK : ∀ a, P a → key a ∈ K) {roots : List α} (hroot : ∀ a ∈ roots, P a) {fuel : Nat}
+    (hfuel : roots.length + K.length ≤ fuel) (k : κ) :
+    k ∈ (run key succ fuel roots).visited.map key ↔ Reach (Poss key succ) (roots.map key) k :=
+  visited_eq_closure key succ hdet (seen0 := []) (fun _ h => by simp at h)
+    (bfs_steps key succ fuel _) (run_terminates key succ P hsucc K hK hroot hfuel) k
+
+/-! ### non-vacuity -/
+
+namespace Example
+
+/-- items are (node, aux); the key is the node -/
+def key : Nat × Nat → Nat := Prod.fst
+
+/-- a graph on nodes: 0 → 1,2 ; 1 → 2,3 ; 3 → 0 ; 4 → 0 (4 is not reachable from 0) -/
+def nodesA : Nat → List Nat
+  | 0 => [1, 2]
+  | 1 => [2, 3]
+  | 3 => [0]
+  | 4 => [0]
+  | _ => []
+
+/-- key-determined successors: the aux component records the predecessor (like the visitors' `Prev`) -/
+def succA (p : Nat × Nat) : List (Nat × Nat) := (nodesA p.1).map (fun n => (n, p.1))
+
+/-- (i) the Go loop computes the closure of {0}, in BFS order, and stops. The root is not marked seen,
+    so it is expanded a second time when the cycle 0 → 1 → 3 → 0 comes back to it (as in the Go code). -/
+example : (run key succA 10 [(0, 0)]).visited.map key = [0, 3, 2, 1, 0] ∧
+    (run key succA 10 [(0, 0)]).queue = [] ∧ (run key succA 10 [(0, 0)]).seen = [0, 3, 2, 1] := by
+  decide
+
+/-- with the root pre-marked every key is expanded once -/
+example : (bfs key succA 10 ⟨[(0, 0)], [0], []⟩).visited.map key = [3, 2, 1, 0] ∧
+    (bfs key succA 10 ⟨[(0, 0)], [0], []⟩).queue = [] := by decide
+
+/-- the hypotheses of `run_eq_closure` are satisfiable: `succA` is key-determined, keys stay in 0..4 -/
+example : ∀ k, k ∈ (run key succA 6 [(0, 0)]).visited.map key ↔
+    Reach (Poss key succA) ([(0, 0)].map key) k := by
+  have hn : ∀ m n, n ∈ nodesA m → n < 5 := by
+    intro m n h
+    unfold nodesA at h
+    split at h <;> simp at h <;> omega
+  refine run_eq_closure key succA ?_ (fun a => a.1 < 5) ?_ [0, 1, 2, 3, 4] ?_ (by simp) (by simp)
+  · intro a b h a' ha'
+    obtain ⟨n, hn, rfl⟩ := List.mem_map.1 ha'
+    have h' : a.1 = b.1 := h
+    exact ⟨(n, b.1), List.mem_map.2 ⟨n, h' ▸ hn, rfl⟩, rfl⟩
+  · intro a _ a' ha'
+    obtain ⟨n, h, rfl⟩ := List.mem_map.1 ha'
+    exact hn _ _ h
+  · rintro ⟨a, x⟩ h
+    simp only [key] at h ⊢
+    have : a = 0 ∨ a = 1 ∨ a = 2 ∨ a = 3 ∨ a = 4 := by omega
+    simpa using this
+
+/-- aux-dependent successors: item (1,1) leads to node 2, item (1,0) does not -/
+def succB : Nat × Nat → List (Nat × Nat)
+  | (0, _) => [(1, 0), (1, 1)]
+  | (1, 1) => [(2, 0)]
+  | _ => []
+
+/-- (ii) the Go order offers (1,0) first, (1,1) is dropped, node 2 is never visited … -/
+example : (run key succB 10 [(0, 0)]).queue = [] ∧
+    2 ∉ (run key succB 10 [(0, 0)]).visited.map key := by decide
+
+/-- … although node 2 is reachable along possible successors (even item-reachable): theorem 1 does
+    not hold with `Poss` in place of a guaranteed relation `G` -/
+example : Reach (Poss key succB) ([(0, 0)].map key) 2 ∧ IReach succB [(0, 0)] (2, 0) := by
+  refine ⟨Reach.step (Reach.step (Reach.root (by simp [key])) ⟨(0, 0), rfl, (1, 1), by simp [succB], rfl⟩)
+    ⟨(1, 1), rfl, (2, 0), by simp [succB], rfl⟩, ?_⟩
+  have h0 : IReach succB [(0, 0)] (0, 0) := IReach.root (by simp)
+  have h1 : IReach succB [(0, 0)] (1, 1) := IReach.step h0 (by simp [succB])
+  exact IReach.step h1 (by simp [succB])
+
+/-- … and another order of the same successors does visit node 2: without `hdet` the visited key
+    set depends on the order -/
+example : ∃ s, Steps key succB (init [(0, 0)]) s ∧ s.queue = [] ∧ 2 ∈ s.visited.map key := by
+  refine ⟨⟨[], [2, 1], [(2, 0), (1, 1), (0, 0)]⟩, ?_, rfl, by decide⟩
+  have s1 : Step key succB (init [(0, 0)]) ⟨[(1, 1)], [1], [(0, 0)]⟩ :=
+    Step.pop (a := (0, 0)) (rest := []) (cands := [(1, 1), (1, 0)]) (List.Perm.refl _)
+      (List.Perm.swap _ _ _) (List.Perm.refl _)
+  have s2 : Step key succB ⟨[(1, 1)], [1], [(0, 0)]⟩ ⟨[(2, 0)], [2, 1], [(1, 1), (0, 0)]⟩ :=
+    Step.pop (a := (1, 1)) (rest := []) (cands := [(2, 0)]) (List.Perm.refl _)
+      (List.Perm.refl _) (List.Perm.refl _)
+  have s3 : Step key succB ⟨[(2, 0)], [2, 1], [(1, 1), (0, 0)]⟩
+      ⟨[], [2, 1], [(2, 0), (1, 1), (0, 0)]⟩ :=
+    Step.pop (a := (2, 0)) (rest := []) (cands := []) (List.Perm.refl _)
+      (List.Perm.refl _) (List.Perm.refl _)
+  exact Steps.tail (Steps.tail (Steps.single s1) s2) s3
+
+/-- the guaranteed relation of `succB` (edges present whatever the aux): only 0 → 1; theorem 1 applies -/
+example : ∀ s, Steps key succB (init [(0, 0)]) s → s.queue = [] → 1 ∈ s.visited.map key := by
+  intro s hs hq
+  refine visited_contains_guaranteed key succB (fun k k' => k = 0 ∧ k' = 1) ?_
+    (seen0 := []) (fun _ h => by simp at h) hs hq 1 (Reach.step (Reach.root (by simp [key])) ⟨rfl, rfl⟩)
+  rintro ⟨n, x⟩ k' ⟨h1, rfl⟩
+  simp only [key] at h1
+  subst h1
+  exact ⟨(1, 0), by simp [succB], rfl⟩
+
+end Example
+
 end Argot.Closure
